@@ -97,6 +97,10 @@ impl File {
     pub fn verif_new(id: usize) -> Self {
         Self { id, pos: 0 }
     }
+    /// A second handle on the same open file description (shares the file's state, lock included).
+    pub fn try_clone(&self) -> io::Result<File> {
+        Ok(Self { id: self.id, pos: self.pos })
+    }
     pub fn open<P: AsRef<Path>>(p: P) -> io::Result<File> {
         if state().fail_open {
             return Err(err());
